@@ -139,3 +139,111 @@ func FuzzC03(f *testing.F) {
 		fuzzVerdict(t, "C03", sc, checkC03(sc, NewStats("C03")))
 	})
 }
+
+// fuzzStdScenario: two contracts whose code are the raw fuzz bytes, the first
+// invoked by an EOA; standard forks only (the reference has no Cancun).
+func fuzzStdScenario(code, code2, data []byte, forkSel, sel byte, gas uint32) *Scenario {
+	sc := &Scenario{Fork: ForkNames[int(forkSel)%12], Note: "fuzz"}
+	st := map[common.Hash]common.Hash{}
+	for i := int64(0); i < 3; i++ {
+		st[common.BigToHash(big.NewInt(i))] = common.BigToHash(big.NewInt(i + int64(sel&3)))
+	}
+	sc.Accounts = []Account{
+		{Addr: ContractAddrs[0], Nonce: 1, Code: code, Balance: hexU64(1000), Storage: st},
+		{Addr: ContractAddrs[1], Nonce: 1, Code: code2, Balance: hexU64(uint64(sel >> 6)), Storage: st},
+		{Addr: ContractAddrs[2], Nonce: 0}, // exists, empty
+		{Addr: EOAAddr, Balance: hexU64(1 << 40), Nonce: 1}}
+	inv := Invocation{Kind: "call", Origin: EOAAddr, Caller: EOAAddr, To: ContractAddrs[0], Gas: 30000 + uint64(gas%2_000_000), JP: sel&4 != 0, Input: data, Value: hexU64(uint64(sel>>3) & 3)}
+	if sel&32 != 0 {
+		inv.Kind, inv.Input = "create", code
+	}
+	sc.Invs = []Invocation{inv}
+	return sc
+}
+
+func fuzzStdSeeds(f *testing.F) {
+	B := ContractAddrs[1]
+	prog := func(build func(a *Asm)) []byte { a := NewAsm(); build(a); return a.Bytes() }
+	callee := prog(func(a *Asm) {
+		a.Op(CALLVALUE).Push(1).Op(SSTORE).Push(7).Push(0).Op(MSTORE).Push(32).Push(0).Op(RETURN)
+	})
+	for _, kind := range []byte{CALL, CALLCODE, DELEGATECALL, STATICCALL} {
+		k := kind
+		f.Add(prog(func(a *Asm) {
+			a.Push(32).Push(0).Push(4).Push(0)
+			if k == CALL || k == CALLCODE {
+				a.Push(1)
+			}
+			a.Push(B[:]).Op(GAS, k).Push(2).Op(SSTORE).Op(RETURNDATASIZE).Push(0).Push(64).Op(RETURNDATACOPY).Push(32).Push(64).Op(LOG0)
+		}), callee, []byte{1, 2, 3, 4}, byte(11), byte(0), uint32(500000))
+	}
+	// create with a value, revert in the callee, selfdestruct, precompile with aliasing windows
+	f.Add(prog(func(a *Asm) {
+		a.Push(0x6001600055).Push(0).Op(MSTORE).Push(5).Push(27).Push(1).Op(CREATE).Op(EXTCODESIZE).Push(3).Op(SSTORE)
+	}), callee, []byte{}, byte(6), byte(8), uint32(900000))
+	f.Add(prog(func(a *Asm) { a.Push(1).Push(1).Op(SSTORE).Push(0).Push(0).Op(REVERT) }), callee, []byte{}, byte(4), byte(0), uint32(100000))
+	f.Add(prog(func(a *Asm) { a.Push(B[:]).Op(SELFDESTRUCT) }), callee, []byte{}, byte(2), byte(0), uint32(100000))
+	f.Add(prog(func(a *Asm) {
+		a.Push(0xabcdef).Push(0).Op(MSTORE).Push(32).Push(1).Push(32).Push(0).Push(0).Push(4).Op(GAS, CALL).Push(1).Op(MLOAD).Push(0).Op(SSTORE)
+	}), callee, []byte{}, byte(9), byte(0), uint32(100000))
+}
+
+// FuzzC01: raw bytes as code of two contracts, differential against go-ethereum
+// v1.12.0 (outcome, post-state, logs; metamorphic over tracer / join-point switches).
+func FuzzC01(f *testing.F) {
+	fuzzStdSeeds(f)
+	f.Fuzz(func(t *testing.T, code, code2, data []byte, forkSel, sel byte, gas uint32) {
+		if len(code) == 0 || len(code) > 400 || len(code2) > 200 || len(data) > 200 {
+			return
+		}
+		sc := fuzzStdScenario(code, code2, data, forkSel, sel, gas)
+		fuzzVerdict(t, "C01", sc, checkC01(sc, NewStats("C01")))
+	})
+}
+
+// FuzzC02: the same cases, gas at every step against the reference.
+func FuzzC02(f *testing.F) {
+	fuzzStdSeeds(f)
+	f.Fuzz(func(t *testing.T, code, code2, data []byte, forkSel, sel byte, gas uint32) {
+		if len(code) == 0 || len(code) > 400 || len(code2) > 200 || len(data) > 200 {
+			return
+		}
+		sc := fuzzStdScenario(code, code2, data, forkSel, sel, gas)
+		_, _, v := gasCompare(sc, NewStats("C02"))
+		fuzzVerdict(t, "C02", sc, v)
+	})
+}
+
+// FuzzC18: the same cases under an inherited tracer chosen by the input.
+func FuzzC18(f *testing.F) {
+	fuzzStdSeeds(f)
+	f.Fuzz(func(t *testing.T, code, code2, data []byte, forkSel, sel byte, gas uint32) {
+		if len(code) == 0 || len(code) > 400 || len(code2) > 200 || len(data) > 200 {
+			return
+		}
+		sc := fuzzStdScenario(code, code2, data, forkSel, sel, gas)
+		var ex c18Extra
+		cfg := map[string]bool{}
+		switch gas % 7 {
+		case 0, 1:
+			ex.Tracer = "callTracer"
+			cfg["withLog"], cfg["onlyTopCall"] = gas&8 == 0, gas&16 != 0
+		case 2, 3:
+			ex.Tracer = "flatCallTracer"
+			cfg["convertParityErrors"], cfg["includePrecompiles"] = gas&8 != 0, gas&16 != 0
+		case 4:
+			ex.Tracer = "prestateTracer"
+			cfg["diffMode"] = gas&8 != 0
+		case 5:
+			ex.Tracer = "struct"
+			ex.SL.EnableMemory, ex.SL.EnableReturnData = gas&8 != 0, gas&16 != 0
+		default:
+			ex.Tracer = ""
+		}
+		if len(cfg) > 0 {
+			ex.Cfg, _ = json.Marshal(cfg)
+		}
+		sc.Extra, _ = json.Marshal(ex)
+		fuzzVerdict(t, "C18", sc, checkC18(sc, NewStats("C18")))
+	})
+}
